@@ -105,3 +105,59 @@ def capacity(ctx, P, rule="CAPACITY"):
                    "`%s = %s` can reach the store without being raised to %s + %s: the table is reallocated smaller than the rows about to be copied in" % (var, rhs[:60], need[0], need[1]))
         first = [c for c in calls(fn.body) if callee(c) == "check_table_overflow" or callee(c) == "check_offset_overflow"]
         ctx.ob(rule, "%s|overflow-first" % name, bool(first), tu.loc(fn.node), "overflow of num + additional checked")
+
+
+def block_allocator(ctx, P, rule="BLKALLOC"):
+    from sa.cfg import CFG
+    from sa.expr import is_assign
+    ctx.rule(rule, "tsk_blkalloc_get never hands out overlapping memory: whenever the request does not fit the current chunk, "
+                   "`top` is reset to 0 only after `current_chunk` was advanced (on every path, whether a spare chunk exists or a "
+                   "new one is allocated); oversize requests are refused; the returned pointer is chunk + top and top grows by size")
+    tu = P.tus["core"]
+    fn = P.need("tsk_blkalloc_get", "core")
+    cfg = CFG(fn)
+    reset = [n for n in cfg.nodes if n.kind == "stmt" and n.ast is not None and is_assign(n.ast) and estr(n.ast.kids[0]) == "self->top" and estr(n.ast.kids[1]) == "0"]
+    adv = [n for n in cfg.nodes if n.kind == "stmt" and n.ast is not None and any(x.k == "UnaryOperator" and x.op == "++" and estr(x.kids[0]) == "self->current_chunk" for x in walk(n.ast))]
+    ok = len(reset) == 1 and len(adv) >= 1
+    ctx.ob(rule, "anchors", ok, tu.loc(fn.node), "%d reset(s) of top, %d advance(s) of current_chunk" % (len(reset), len(adv)))
+    if ok:
+        full = [n for n in cfg.nodes if n.kind == "cond" and n.ast is not None and "self->top" in estr(n.ast) and "chunk_size" in estr(n.ast)]
+        okp = bool(full) and not cfg.path_exists(full[0], reset[0], avoid=set(adv))
+        ctx.ob(rule, "advance-before-reset", okp, tu.loc(reset[0].ast),
+               "every path from the chunk-full test to `top = 0` advances current_chunk" if okp else
+               "`top = 0` is reachable without `current_chunk++`: after a reset the allocator rewinds inside the same chunk and "
+               "overwrites live records")
+    src = tu.src(fn.body)
+    ctx.ob(rule, "oversize", "size > self->chunk_size" in src, tu.loc(fn.node), "requests larger than a chunk are refused")
+    ret = [n for n in cfg.nodes if n.kind == "stmt" and n.ast is not None and is_assign(n.ast) and estr(n.ast.kids[0]) == "ret"
+           and "self->mem_chunks[self->current_chunk]" in estr(n.ast.kids[1]) and "self->top" in estr(n.ast.kids[1])]
+    grow = any(x.k == "CompoundAssignOperator" and x.op == "+=" and estr(x.kids[0]) == "self->top" and estr(x.kids[1]) == "size" for x in walk(fn.body))
+    ctx.ob(rule, "bump", bool(ret) and grow, tu.loc(fn.node), "returns chunk + top and bumps top by size")
+    rs = P.need("tsk_blkalloc_reset", "core")
+    s2 = tu.src(rs.body)
+    ctx.ob(rule, "reset", "self->top = 0" in s2 and "self->current_chunk = 0" in s2, tu.loc(rs.node), "reset rewinds both top and current_chunk")
+
+
+def logical_not_in_mask(ctx, P, rule="MASK-NOT", tus=None):
+    ctx.rule(rule, "a bit mask is never built with logical not: `x &= !FLAG` / `x & !FLAG` (which clears every bit or tests bit 0) "
+                   "does not occur where `~FLAG` is meant")
+    n = 0
+    bad = 0
+    for key in (tus or LIB_TUS + ["module"]):
+        tu = P.tus[key]
+        for fn in tu.funcs.values():
+            k = 0
+            for x in walk(fn.body):
+                if (x.k == "CompoundAssignOperator" and x.op in ("&=", "|=", "^=")) or (x.k == "BinaryOperator" and x.op in ("&", "|", "^")):
+                    n += 1
+                    for side in x.kids[:2]:
+                        s = strip(side)
+                        if s is not None and s.k == "UnaryOperator" and s.op == "!":
+                            inner = strip(s.kids[0])
+                            txt = tu.src(s)
+                            # `!!(options & FLAG)` and `!(a & b)` are boolean tests, not masks: only flag !CONSTANT
+                            if inner is not None and (inner.extra == "objmacro" or inner.k == "IntegerLiteral") and re.search(r"![ (]*[A-Z_][A-Z0-9_]+", txt):
+                                bad += 1
+                                ctx.ob(rule, "%s@%d" % (fn.name, k), False, tu.loc(x), "`%s`: logical not of a flag constant used as a mask" % estr(x)[:80])
+                                k += 1
+    ctx.ob(rule, "instances", n >= 100, "c/tskit + module", "%d bitwise operations examined, %d with a logical-not mask" % (n, bad))
